@@ -168,7 +168,7 @@ macro_rules! impl_read_at {
                 }
 
                 async fn read_vectored_at<T:IoVectoredBufMut>(&self, mut buf: T, pos: u64) -> BufResult<usize, T> {
-                    let slice = &self[pos as usize..];
+                    let slice = &self[pos.min(self.len() as u64) as usize..];
                     let mut this = slice;
 
                     for buf in buf.iter_uninit_slice() {
